@@ -59,6 +59,16 @@ Check ==
                                \A j \in 1..Len(F) : \A q \in 2..Len(F[j].recs) :
                                    (F[j].recs[q][1] > clearId + 2 /\ F[j].recs[q-1][1] > clearId + 1)
                                        => SumLen(F[j].recs, q - 1) <= cc.size)
+                           \* ... and no rotation without need: a file boundary in front of a record logged after the
+                           \* failures ended is explained by the size criterion or by an explicit rotation / restart
+                           /\ Chk(e, "NoNeedlessRotationAfterRecovery",
+                                  cc.age # "" \/
+                                  LET RO == ReadOrder(F) IN
+                                  \A j \in 1..Len(RO) - 1 :
+                                      (Len(RO[j].recs) > 0 /\ Len(RO[j+1].recs) > 0 /\ RO[j+1].recs[1][1] > clearId + 1)
+                                         => (Bytes(RO[j].recs) > cc.size
+                                             \/ RO[j].recs[Len(RO[j].recs)][1] \in forced'
+                                             \/ RO[j+1].recs[1][1] - 1 \in forced'))
                            /\ Cnt(5, TRUE)
                       ELSE TRUE
               ELSE TRUE
